@@ -89,29 +89,40 @@ GenF4(d) ==
     Blk("F4", ns, [i \in 1..ns |-> Rnd(X0G, <<d, i>>)], <<MkRx(<< >>, sp[1], << >>, sp[2], "general", k, One, One, 1, tree)>>,
         "", k, c)
 
-\* ---------------------------------------------------------------- grids (start at 0, end <= 4)
+\* ---------------------------------------------------------------- F5
+GenF5(d) ==
+    LET ns == Rnd(2..3, d)
+        g == Rnd({I(2), I(3)}, d)
+        grow == MkRx(<<1>>, <<1, 1>>, << >>, << >>, "massaction", g, One, One, 1, NoTree) IN
+    Blk("F5", ns, [i \in 1..ns |-> IF i = 1 THEN Rnd({I(1), I(2), R(3, 2), R(1, 2)}, <<d, i>>) ELSE Rnd(X0G, <<d, i>>)],
+        <<grow>> \o F2From(1, ns, d), "", Zero, Zero)
+
+\* ---------------------------------------------------------------- grids (start at 0; end <= 4 except the long-gap grids)
 Uniform(dt, n) == [i \in 1..n |-> RMul(I(i - 1), dt)]
 Grids == {Uniform(R(1, 4), 9), Uniform(R(1, 2), 9), Uniform(I(1), 5), Uniform(R(1, 2), 5), Uniform(R(1, 4), 17),
           <<I(0), R(1, 4), R(1, 2), R(3, 2), I(2), R(7, 2)>>, <<I(0), I(1), R(5, 4), R(3, 2), I(4)>>,
           <<I(0), R(1, 10), R(1, 2), I(1), I(3)>>, <<I(0), I(2), R(5, 2), I(3), R(13, 4), R(7, 2), I(4)>>}
+\* a long gap between two requested times: a growing solution (F5) needs more than the integrator's first step budget there
+LongGrids == {<<I(0), R(1, 2), I(1), I(2), I(60), I(61), I(62)>>, <<I(0), I(1), I(50), R(101, 2), I(64)>>}
+HasGrowth(bs) == \E n \in 1..Len(bs) : bs[n].fam = "F5"
 IsUniform(g) == \A i \in 2..(Len(g) - 1) : RSub(g[i + 1], g[i]) = RSub(g[2], g[1])
 
 Init == blocks = << >> /\ cand = NoBlock /\ grid = <<Zero>> /\ pc = "build"
 \* a block is first DRAWN into the state (TLC keeps function constructors as lazy closures: a random value read
 \* twice before it is part of a state would be drawn twice), then accepted if it is a member of its family
 \* (e.g. pairwise distinct exit rates) or dropped
-Member(b) == IF b.fam = "F2" THEN IsFeedForward(b) ELSE TRUE
+Member(b) == IF b.fam = "F2" THEN IsFeedForward(b) ELSE IF b.fam = "F5" THEN IsGrowing(b) ELSE TRUE
 Draw == /\ pc = "build" /\ cand = NoBlock /\ Len(blocks) < MaxBlocks
-        /\ \E fam \in {Rnd({"F1", "F2", "F3", "F4", "F2", "F1"}, blocks)} :
+        /\ \E fam \in {Rnd({"F1", "F2", "F3", "F4", "F2", "F1", "F5"}, blocks)} :
               cand' = (CASE fam = "F1" -> GenF1(blocks) [] fam = "F2" -> GenF2(blocks)
-                         [] fam = "F3" -> GenF3(blocks) [] fam = "F4" -> GenF4(blocks))
+                         [] fam = "F3" -> GenF3(blocks) [] fam = "F4" -> GenF4(blocks) [] fam = "F5" -> GenF5(blocks))
         /\ UNCHANGED <<blocks, grid, pc>>
 Accept == /\ pc = "build" /\ cand # NoBlock
           /\ IF Member(cand) THEN blocks' = Append(blocks, cand) ELSE blocks' = blocks
           /\ cand' = NoBlock /\ UNCHANGED <<grid, pc>>
 Finish == /\ pc = "build" /\ Len(blocks) >= 1 /\ cand = NoBlock
           /\ IF Len(blocks) = MaxBlocks THEN TRUE ELSE Rnd(1..2, blocks) = 1
-          /\ \E g \in {Rnd(Grids, blocks)} : grid' = g
+          /\ \E g \in {Rnd(IF HasGrowth(blocks) THEN LongGrids ELSE Grids \cup {<<I(0), I(1), I(50), R(101, 2), I(64)>>}, blocks)} : grid' = g
           /\ pc' = "done" /\ UNCHANGED <<blocks, cand>>
 Next == Draw \/ Accept \/ Finish
 Spec == Init /\ [][Next]_vars
